@@ -33,6 +33,8 @@ package db
 //@   ensures [layout] pk != nil && len(pk) == len(pdb.prefix) + len(key)
 //@   ensures [prefix] forall(i, imp(0 <= i && i < len(pdb.prefix), at(pk, i) == at(pdb.prefix, i)))
 //@   ensures [key] forall(i, imp(0 <= i && i < len(key), at(pk, len(pdb.prefix) + i) == at(key, i)))
+//@   ensures [built-on-a-private-copy-of-the-prefix] calls("db.cp$") == 1
+//@   callsite db.cp$ [prefix-copied-before-it-is-extended] arg0 == pdb.prefix
 
 // ---------------------------------------------------------------- PrefixDB point operations: empty keys are refused, the parent only ever sees prefix+key
 
@@ -76,6 +78,8 @@ package db
 //@   ensures [emptykey] len(key) == 0 ==> err != nil
 //@   ensures [nilvalue] value == nil ==> err != nil
 //@   callsite Batch).Set [namespaced] len(key) > 0 && value != nil && prefixedArg && arg1 == value
+//@   callsite db.cp$ [prefix-copied-before-it-is-extended] arg0 == pb.prefix
+//@   ensures [key-built-on-a-private-copy-of-the-prefix] err == nil ==> calls("db.cp$") == 1
 //@   modifies *
 
 //@ func (prefixDBBatch).Delete(pb, key) (err)
@@ -84,6 +88,8 @@ package db
 //@   macro prefixedArg = len(arg0) == len(pb.prefix) + len(key) && forall(i, imp(0 <= i && i < len(pb.prefix), at(arg0, i) == at(pb.prefix, i))) && forall(i, imp(0 <= i && i < len(key), at(arg0, len(pb.prefix) + i) == at(key, i)))
 //@   ensures [emptykey] len(key) == 0 ==> err != nil
 //@   callsite Batch).Delete [namespaced] len(key) > 0 && prefixedArg
+//@   callsite db.cp$ [prefix-copied-before-it-is-extended] arg0 == pb.prefix
+//@   ensures [key-built-on-a-private-copy-of-the-prefix] err == nil ==> calls("db.cp$") == 1
 //@   modifies *
 
 // ---------------------------------------------------------------- range bounds of a prefix view
